@@ -374,7 +374,8 @@ func (s *SecureChannel) Receive(ctx context.Context) *MessageBody {
 
 			case 'C':
 				s.chunks[reqID] = append(s.chunks[reqID], chunk)
-				if n := len(s.chunks[reqID]); uint32(n) > s.c.MaxChunkCount() {
+				// a limit of 0 means "no limit" (OPC UA Part 6, 7.1.2.3/7.1.2.4)
+				if n := len(s.chunks[reqID]); s.c.MaxChunkCount() != 0 && uint32(n) > s.c.MaxChunkCount() {
 					delete(s.chunks, reqID)
 					s.chunksMu.Unlock()
 					msg.Err = errors.Errorf("too many chunks: %d > %d", n, s.c.MaxChunkCount())
@@ -396,7 +397,7 @@ func (s *SecureChannel) Receive(ctx context.Context) *MessageBody {
 				return msg
 			}
 
-			if uint32(len(b)) > s.c.MaxMessageSize() {
+			if s.c.MaxMessageSize() != 0 && uint32(len(b)) > s.c.MaxMessageSize() {
 				msg.Err = errors.Errorf("message too large: %d > %d", uint32(len(b)), s.c.MaxMessageSize())
 				return msg
 			}
